@@ -411,6 +411,7 @@ func (prop) Run(t *testing.T, tape *kernel.Tape, sc kernel.Scenario) *kernel.Res
 		env.Fault("awkward-value")
 	}
 	useAuth := tape.Bool(3, "client-auth")
+	getBodyCalls := 1 + tape.Choose(3, "getbody-calls")
 	if useAuth {
 		env.Fault("client-auth-getbody")
 	}
@@ -490,7 +491,9 @@ func (prop) Run(t *testing.T, tape *kernel.Tape, sc kernel.Scenario) *kernel.Res
 		}
 		if useAuth {
 			cop.AuthInfo = runtime.ClientAuthInfoWriterFunc(func(req runtime.ClientRequest, _ strfmt.Registry) error {
-				_ = req.GetBody()
+				for i := 0; i < getBodyCalls; i++ {
+					_ = req.GetBody()
+				}
 				return nil
 			})
 		}
